@@ -246,6 +246,9 @@ func Exec(env *Env, st store.Store, o Op, ss *simnode.Session, hook ReaderHook) 
 		}
 	}
 	b := node.NewBrowser(env.Mod, rootNode)
+	if ss != nil && ss.OnBrowser != nil {
+		ss.OnBrowser(b)
+	}
 	sel, err := FindSel(b.Root(), o.At)
 	if err != nil {
 		res.Err = fmt.Errorf("find %s: %w", o.At, err)
@@ -357,6 +360,9 @@ func ExecInto(env *Env, st store.Store, o Op, full *model.Tree, ss *simnode.Sess
 		rootNode = ss.Wrap(rootNode, "T", nil, "")
 	}
 	tb := node.NewBrowser(env.Mod, rootNode)
+	if ss != nil && ss.OnBrowser != nil {
+		ss.OnBrowser(tb)
+	}
 	tsel, err := FindSel(tb.Root(), o.At)
 	if err != nil {
 		res.Err = err
